@@ -126,6 +126,12 @@ func c10Specs() []gram.Named {
 	mid.Rules[1].Mid = []gram.MidAct{{After: 1, Text: " onlyBody(2) "}}
 	out = append(out, gram.Named{Name: "mid-rule-actions", Spec: mid})
 
+	// token numbers given on precedence lines (POSIX: %left name [number] ...)
+	pnum := gram.Parse("E", nil, "E: E TM E | E TP E | E TQ E | TN")
+	pnum.Tokens = []gram.TokDecl{{Name: "TN"}, {Name: "TM", NoTokenLine: true}, {Name: "TP", NoTokenLine: true}, {Name: "TQ", NoTokenLine: true}}
+	pnum.Prec = []gram.PrecLevel{{Assoc: "left", Toks: []string{"TM", "TP"}, Nums: []int{301, 0}}, {Assoc: "right", Toks: []string{"TQ"}, Nums: []int{400}}}
+	out = append(out, gram.Named{Name: "numbers-on-precedence-lines", Spec: pnum})
+
 	// value tags given on precedence lines: to a token declared before (untagged), to a new name, to a literal
 	ptag := gram.Parse("E", nil, "E: E TP E | E TQ E | E '-' E | TN")
 	ptag.Union = " v int \n w string "
@@ -152,7 +158,7 @@ func c10Specs() []gram.Named {
 	out = append(out, gram.Named{Name: "keyword-names", Spec: kw})
 	for _, n := range gram.Families() {
 		switch n.Name {
-		case "slr-expr", "nullable-chain", "ambig-expr-prec", "nonassoc-cmp", "lalr-not-nqlalr", "list-of-lists", "prec-literal", "duplicate-rule", "default-start":
+		case "slr-expr", "nullable-chain", "ambig-expr-prec", "nonassoc-cmp", "lalr-not-nqlalr", "list-of-lists", "prec-literal", "duplicate-rule", "default-start", "rr-split-groups", "name-prefixes", "prec-of-plain-token":
 			out = append(out, gram.Named{Name: "family-" + n.Name, Spec: n.Spec})
 		}
 	}
@@ -172,7 +178,7 @@ func c10Work(w *Worker) {
 		w.Count("specifications", int64(len(specs)))
 	}
 	for si, n := range specs {
-		small := si >= 12 // class grammars and families: fewer option combinations
+		small := si >= 13 // class grammars and families: fewer option combinations
 		for oi := 0; oi < 8; oi++ {
 			o := gram.LayoutOpts{NoSemicolon: oi&1 != 0, RepeatLHS: oi&2 != 0, GroupDecls: oi&4 != 0}
 			if small && strings.Contains(n.Name, "#") && oi != 0 && oi != 3 {
@@ -219,7 +225,7 @@ func c10Work(w *Worker) {
 					emit(&c10Case{Origin: n.Name, Spec: n.Spec, Opts: o, Seps: map[int]string{gi: sp}})
 				}
 			}
-			if w.Thorough() && si < 12 {
+			if w.Thorough() && si < 13 {
 				for gi, a1 := range atoms {
 					for gj := gi + 1; gj < len(atoms); gj++ {
 						a2 := atoms[gj]
@@ -357,6 +363,11 @@ func c10Eval(w *Worker, c *c10Case) {
 		}
 	}
 	for _, pl := range spec.Prec {
+		for i, t := range pl.Toks {
+			if i < len(pl.Nums) && pl.Nums[i] != 0 {
+				wantNum[t] = pl.Nums[i]
+			}
+		}
 		if pl.Tag != "" {
 			for _, t := range pl.Toks {
 				wantTag[t] = pl.Tag
